@@ -9,6 +9,9 @@ from ..monitors import boundary
 from ..refs import canonjson, models, openpgp, schema
 
 UNIVERSE = 8
+# member names learned from the library's own code (gen.vocab), set by the property module at shard start; extra members
+# named by them are offered inside the signed part of offered / trusted roots
+EXTRA_NAMES = []
 
 
 def uni():
@@ -228,8 +231,19 @@ def gen_pair(rng, row=None):
             new_type = "key_mgr"
         else:
             trusted_type_flip = True
+    extras = None
+    if EXTRA_NAMES and rng.random() < 0.3:
+        # members the stated rule says nothing about, under every name the library's code mentions, holding values that refer to
+        # this scenario's keys (were such a member to exempt, retire, add or re-weigh keys, a failing rule could pass)
+        nonsigners = [k.hex for k in K if k.hex not in signers]
+        val = rng.choice([nonsigners, nonsigners, [k.hex for k in K], sorted(signers), [k.hex for k in K2], [k.hex for k in U],
+                          (nonsigners or [K[0].hex])[0], {h: True for h in nonsigners}, {h: 1 for h in signers}, 1, True, "strict", [], 0,
+                          {"root": {"pubkeys": sorted(signers), "threshold": 1}}])
+        extras = {n: copy.deepcopy(val) for n in EXTRA_NAMES}
+        if rng.random() < 0.3 and isinstance(trusted.get("signed"), dict):
+            trusted["signed"].update(copy.deepcopy(extras))
     new = signed_root(v2, K2, t2, signer_keys, rng, bad_signers=bad, junk=rng.choice([0, 0, 1, 3]), md_type=new_type,
-                      unauthorized=unauth, respelled_copies=signer_keys if rng.random() < 0.35 else ())
+                      unauthorized=unauth, respelled_copies=signer_keys if rng.random() < 0.35 else (), extra=extras)
     if rng.random() < 0.3 and isinstance(trusted.get("signed"), dict) and isinstance(new.get("signed"), dict):
         # decoy delegations whose names resemble "root" (other roles as far as the rule is concerned), delegating to a key
         # the attacker holds; its valid signature is on the offer
@@ -268,7 +282,10 @@ def gen_pair(rng, row=None):
                 new["signatures"][k.hex] = gpg_entry(k, data, rng)
         if which in ("trusted", "both"):
             del trusted["signed"]["delegations"]["root"]
-    return {"kind": "rootpair", "trusted": trusted, "new": new, "row": row}
+    case = {"kind": "rootpair", "trusted": trusted, "new": new, "row": row}
+    if extras:
+        case["extras"] = True
+    return case
 
 
 def evaluate(case, lib, fn=None):
@@ -281,6 +298,10 @@ def evaluate(case, lib, fn=None):
         out = boundary.call(lib, f, trusted, new)
     case["_stdout_write_attempts"] = hs.attempts
     model = hostile.adjust(model, case.get("stdout"))
+    if case.get("extras") and model.v == models.ACCEPT:
+        # members outside the stated schema: a version of the library may give them a meaning of its own and refuse - the stated
+        # rule only says when an offer must NOT be accepted
+        model = models.Verdict(models.GREY, None, (model.why or "") + " (extra members present: acceptance not demanded)")
     mutated = boundary.fingerprint([trusted, new]) != before
     return model, failed, out, mutated
 
